@@ -755,6 +755,12 @@ pub fn validate_json_for_entity(
             let field = f.1;
             let short_name = &field.short_name;
             if !field.is_system {
+                //a nullable field explicitly set to null is stored as "short":null by the mutation
+                if field.nullable {
+                    if let Some(serde_json::Value::Null) = json.get(short_name) {
+                        continue;
+                    }
+                }
                 match field.field_type {
                     FieldType::Boolean => {
                         match json.get(short_name) {
